@@ -391,7 +391,7 @@ int main(int argc, char** argv)
                         for (int meta = 0; meta < 3; ++meta)
                             for (int scale = 0; scale < 3; ++scale)
                                 for (int uri = 0; uri < 2; ++uri) {
-                                    Spec s; memset(&s, 0, sizeof s);
+                                    Spec s; memset(&s, 0, sizeof s); s.short_at = -1; s.intruder = -1;
                                     s.kind = kind; s.shape = shape; s.type = type; s.ncyc = 1; s.c[0] = { n, g, meta, scale, uri };
                                     std::vector<Spec> todo;
                                     if (cycles == 1) todo.push_back(s);
